@@ -19,6 +19,7 @@ func init() {
 			c.Assumption("bindnode maps Go struct fields to schema fields by position/name as documented; dag-cbor encodes the schema's representation")
 			c12Schema(r)
 			c12Decoders(r)
+			c12Codec(r)
 			c12Kinds(r)
 			c12Constructors(r)
 			c04Response(r, "C12.4")
@@ -283,6 +284,35 @@ func c12Schema(r *R) {
 		}
 	}
 	r.c.Check(okReg, "C12.1", "registry-binding", "message/message1_1prime/transfer_message.go", "TransferMessage1_1 registered with the embedded schema", "the bindnode registry is not bound to the embedded schema for TransferMessage1_1")
+}
+
+// c12Codec: the network form is written with the canonical DAG-CBOR encoder and
+// read with its decoder (a differently configured encoder changes the bytes).
+func c12Codec(r *R) {
+	enc, dec := "func:github.com/ipld/go-ipld-prime/codec/dagcbor.Encode", "func:github.com/ipld/go-ipld-prime/codec/dagcbor.Decode"
+	n := 0
+	for _, fn := range r.p.Prod {
+		if fn.Pkg == nil || !strings.HasSuffix(fn.Pkg.Pkg.Path(), "message/message1_1prime") {
+			continue
+		}
+		for _, ci := range core.CallSites(fn) {
+			name := r.p.CalleeName(ci.Common())
+			want := ""
+			switch {
+			case name == "github.com/ipld/go-ipld-prime.EncodeStreaming" || strings.HasSuffix(name, "BindnodeRegistry).TypeToWriter") || strings.HasSuffix(name, "BindnodeRegistry).TypeToBytes") || name == "github.com/ipld/go-ipld-prime.Encode":
+				want = enc
+			case name == "github.com/ipld/go-ipld-prime.DecodeStreaming" || strings.HasSuffix(name, "BindnodeRegistry).TypeFromReader") || strings.HasSuffix(name, "BindnodeRegistry).TypeFromBytes") || name == "github.com/ipld/go-ipld-prime.Decode":
+				want = dec
+			default:
+				continue
+			}
+			n++
+			args := ci.Common().Args
+			got := r.d.Of(args[len(args)-1])
+			r.c.Check(got == want, "C12.2", "codec:"+r.siteKey(ci), r.p.InstrPos(ci), "canonical DAG-CBOR codec", "the network form is written/read with "+got+" instead of the canonical "+want+": the bytes are no longer the published DAG-CBOR form")
+		}
+	}
+	r.c.Floor("C12.2", n, 4, "encode/decode sites in message1_1prime")
 }
 
 func c12Decoders(r *R) {
